@@ -101,6 +101,7 @@ type ecResult struct {
 	Samples       []string          `json:"samples"`
 	Notes         []string          `json:"notes"`
 	TimesMs       map[string]int64  `json:"times_ms"`
+	Complete      bool              `json:"complete"`
 }
 
 // ------------------------------------------------------------------------------------------------ common helpers
@@ -938,7 +939,7 @@ func (r *ecRecv) onEventData(buf []byte, conn eventConn) error {
 	defer r.mu.Unlock()
 	r.callbacks++
 	prev := r.got[r.consumed:]
-	if r.bad == "" && !bytes.HasPrefix(buf, prev) {
+	if r.bad == "" && !ecHasPrefixSampled(buf, prev, r.callbacks) {
 		d := ecFirstDiff(buf, prev)
 		r.bad = fmt.Sprintf("callback #%d: argument (%d bytes) does not start with the %d unconsumed bytes shown before (first difference at +%d, stream offset %d)",
 			r.callbacks, len(buf), len(prev), d, r.consumed+d)
@@ -982,6 +983,23 @@ func (r *ecRecv) onEventData(buf []byte, conn eventConn) error {
 		r.shrinks++
 	}
 	return nil
+}
+
+// does buf start with prev? Complete comparison up to 256 KiB and on every 16th call; otherwise head, tail and a moving
+// 16 KiB window (keeps the callback O(new bytes) when megabytes stay unconsumed; the whole stream is compared at the end)
+func ecHasPrefixSampled(buf, prev []byte, call int) bool {
+	if len(buf) < len(prev) {
+		return false
+	}
+	if len(prev) <= 256<<10 || call%16 == 0 {
+		return bytes.Equal(buf[:len(prev)], prev)
+	}
+	const w = 16 << 10
+	if !bytes.Equal(buf[:w], prev[:w]) || !bytes.Equal(buf[len(prev)-w:len(prev)], prev[len(prev)-w:]) {
+		return false
+	}
+	off := (call * 7919 * w) % (len(prev) - w)
+	return bytes.Equal(buf[off:off+w], prev[off:off+w])
 }
 
 // bytes of the first max (or all, max<0) complete events at the start of buf
@@ -1170,15 +1188,28 @@ func ecRunE2E(cfg *ecE2ECfg, res *ecResult) {
 	close(start)
 	done := make(chan struct{})
 	go func() { wg.Wait(); close(done) }()
-	select {
-	case <-done:
-	case <-time.After(60 * time.Second):
-		fail("stuck", fmt.Sprintf("senders did not finish within 60s (sendCh len %d, writing=%d, receiver has %d bytes)", len(s.sendCh), atomic.LoadUint32(&s.writing), len(recv.got)))
-		return
+	// "stuck" = no byte moved for 20 s (a slow machine is not a stuck connection)
+	lastHave, idleSince := -1, time.Now()
+waitSenders:
+	for {
+		select {
+		case <-done:
+			break waitSenders
+		case <-time.After(50 * time.Millisecond):
+			recv.mu.Lock()
+			have := len(recv.got)
+			recv.mu.Unlock()
+			if have != lastHave {
+				lastHave, idleSince = have, time.Now()
+			} else if time.Since(idleSince) > 20*time.Second {
+				fail("stuck", fmt.Sprintf("senders blocked and no byte reached the peer's callback for 20s (sendCh len %d, writing=%d, receiver has %d bytes)", len(s.sendCh), atomic.LoadUint32(&s.writing), have))
+				return
+			}
+		}
 	}
 	pollSent = int64(atomic.LoadUint64(&s.stats.sendPollingEventCount))
 	// quiescence: send loop idle, everything written has been shown to the peer's callback
-	deadline := time.Now().Add(30 * time.Second)
+	lastHave, idleSince = -1, time.Now()
 	for {
 		rec.mu.Lock()
 		want := len(rec.log)
@@ -1186,6 +1217,9 @@ func ecRunE2E(cfg *ecE2ECfg, res *ecResult) {
 		recv.mu.Lock()
 		have := len(recv.got)
 		recv.mu.Unlock()
+		if have != lastHave {
+			lastHave, idleSince = have, time.Now()
+		}
 		if len(s.sendCh) == 0 && atomic.LoadUint32(&s.writing) == 0 && have >= want {
 			// the slow-path entries are written after being taken from sendCh: wait until the byte count is stable
 			time.Sleep(3 * time.Millisecond)
@@ -1199,8 +1233,8 @@ func ecRunE2E(cfg *ecE2ECfg, res *ecResult) {
 				}
 			}
 		}
-		if time.Now().After(deadline) {
-			fail("not-delivered", fmt.Sprintf("30s after the last send returned: %d bytes were written to the event connection, the peer's callback has seen %d (sendCh %d, writing %d)",
+		if time.Since(idleSince) > 20*time.Second {
+			fail("not-delivered", fmt.Sprintf("every send has returned and nothing moved for 20s: %d bytes were written to the event connection, the peer's callback has seen %d (sendCh %d, writing %d)",
 				want, have, len(s.sendCh), atomic.LoadUint32(&s.writing)))
 			break
 		}
@@ -1398,11 +1432,11 @@ func ecRunBurst(cfg *ecBurstCfg, res *ecResult) {
 			fail("write-error", err.Error())
 			return
 		}
-	case <-time.After(60 * time.Second):
-		fail("stuck", fmt.Sprintf("write of %d bytes did not return within 60s (receiver has seen %d)", total, len(recv.got)))
+	case <-time.After(120 * time.Second):
+		fail("stuck", fmt.Sprintf("write of %d bytes did not return within 120s (receiver has seen %d)", total, len(recv.got)))
 		return
 	}
-	deadline := time.Now().Add(30 * time.Second)
+	lastHave, idleSince := -1, time.Now()
 	for {
 		recv.mu.Lock()
 		have := len(recv.got)
@@ -1416,8 +1450,11 @@ func ecRunBurst(cfg *ecBurstCfg, res *ecResult) {
 		if have >= total {
 			break
 		}
-		if time.Now().After(deadline) {
-			fail("not-delivered", fmt.Sprintf("%d bytes written, all writes returned; 30s later the peer's callback has seen %d", total, have))
+		if have != lastHave {
+			lastHave, idleSince = have, time.Now()
+		}
+		if time.Since(idleSince) > 20*time.Second {
+			fail("not-delivered", fmt.Sprintf("%d bytes written, all writes returned; nothing moved for 20s and the peer's callback has seen %d", total, have))
 			return
 		}
 		time.Sleep(time.Millisecond)
@@ -1928,7 +1965,15 @@ func TestVS_EventConn(t *testing.T) {
 	level = levelNoPrint
 	res := &ecResult{Violations: []ecViolation{}, Drift: []string{}, Probes: map[string]string{}, Samples: []string{}, Notes: []string{}, TimesMs: map[string]int64{}}
 	t0 := time.Now()
-	lap := func(name string) { res.TimesMs[name] = time.Since(t0).Milliseconds(); t0 = time.Now() }
+	// the result file is rewritten after every part: if the library crashes the process in one of its own goroutines
+	// (free-running parts), what the deterministic parts found is not lost
+	save := func() {
+		out, _ := json.Marshal(res)
+		if err := os.WriteFile(os.Getenv("VS_OUT"), out, 0o644); err != nil {
+			t.Fatal(err)
+		}
+	}
+	lap := func(name string) { res.TimesMs[name] = time.Since(t0).Milliseconds(); save(); t0 = time.Now() }
 	stop := func() bool { return job.StopAtViol && len(res.Violations) > 0 }
 	// probes first: a class of inputs listed as a known finding is explored only when the probe says it works on this tree
 	for _, pr := range job.Probes {
@@ -1940,6 +1985,7 @@ func TestVS_EventConn(t *testing.T) {
 		}
 	}
 	ecWritevEmptyOK = res.Probes["writev-empty-slice"] == "ok"
+	lap("probes")
 
 	for i := range job.Window {
 		if stop() || len(res.Violations) >= 5 {
@@ -2005,9 +2051,6 @@ func TestVS_EventConn(t *testing.T) {
 		ecRunBurst(&job.Burst[i], res)
 	}
 	lap("burst")
-	lap("probes")
-	out, _ := json.Marshal(res)
-	if err := os.WriteFile(os.Getenv("VS_OUT"), out, 0o644); err != nil {
-		t.Fatal(err)
-	}
+	res.Complete = true
+	save()
 }
